@@ -21,7 +21,9 @@ def main():
         sampling = G.sampling_path(c, n_distinct)
         res = {}
         for form in ('list', 'dict'):
-            for seed in ((1,) if sampling else (1, None)):
+            # (any hashable is a seed; a string's hash() differs from one
+            # interpreter to the next, what random.seed() makes of it not)
+            for seed in ((1, 'seed-a') if sampling else (1, 'seed-a', None)):
                 kw['seed'] = seed
                 try:
                     r = rexpy.extract(G.supplied(c, form), **kw)
